@@ -121,7 +121,28 @@ class P:
             return (int(e[2]), int(e[3])) == aexp[c]
         apart = {"name": "error-positions-with-aliases", "harness": "parse", "driver": None, "cases": al, "impl_ok": alias_ok,
                  "nontrivial": lambda c: True, "distribution": {"cases": len(al), "alias_values": len(values), "ill_formed_alias_values": len(bad_values)}}
-        return [tpart, ipart, apart] + c02.token_parts(random.Random(seed + 7), tier, 2000 if tier == "quick" else 30000) + [{"name": "mutants-and-short-strings", "harness": "parse", "driver": None, "cases": cases, "impl_ok": located_ok,
+        # an offending token on the line after a comment, at the places where the lexer skips the line break itself; comment texts
+        # ending in a backslash (a backslash in a comment is text, never a line continuation)
+        cl, cexp = [], {}
+        for pre in ("a &&", "a ||", "a |", "case x in", "case x in a)", "case x in a) b;;", "for i;", "f()", "a && b |", "{ a ||"):
+            for com in (" c", " c \\", "\\", " a\\\\", ""):
+                for bad in (")", ";", "&& x", "| y", ";;"):
+                    if bad == ";;" and pre.startswith("case"):
+                        continue
+                    for shape in (pre + " #" + com + "\n@" + bad + "\nb\n", pre + "\n#" + com + "\n@" + bad + "\nb\n", pre + " #" + com + "\n  # d\\\n\t@" + bad + "\n"):
+                        k = shape.index("@")
+                        c_ = G.pcase(shape.replace("@", ""))
+                        cl.append(c_)
+                        cexp[c_] = (shape[:k].count("\n") + 1, k - (shape[:k].rfind("\n") + 1) + 1)
+
+        def cl_ok(c, o):
+            if not (o.startswith("ok ") and fields(o)["E"].startswith("syn:")):
+                return False
+            e = fields(o)["E"].split(":")
+            return (int(e[2]), int(e[3])) == cexp[c]
+        cpart = {"name": "offending-token-after-a-comment-at-a-line-break", "harness": "parse", "driver": None, "cases": cl, "impl_ok": cl_ok,
+                 "nontrivial": lambda c: True, "distribution": {"cases": len(cl)}}
+        return [tpart, ipart, apart, cpart] + c02.token_parts(random.Random(seed + 7), tier, 2000 if tier == "quick" else 30000) + [{"name": "mutants-and-short-strings", "harness": "parse", "driver": None, "cases": cases, "impl_ok": located_ok,
                  "nontrivial": lambda c: len(unhx(c.split("\t")[0]).split()) >= 2,
                  "distribution": {"mutants": len(muts), "short": len(short)}}]
 
